@@ -65,3 +65,19 @@ extern "C" void h_c19_great_circle(void)
   sym_assert(sym_eq(got, r * std::acos(c)), "same-depth distance is the great-circle distance r*acos(p1.p2/r^2), also beyond 90 degrees");
   sym_reach("end");
 }
+
+// Cartesian -> spherical -> Cartesian returns the point (exact-real reading; acos/atan2/sin/cos uninterpreted, related only by the
+// inverse-function contracts cos(acos t) = t, sin(acos t) = sqrt(1-t^2), h cos(atan2(y,x)) = x, h sin(atan2(y,x)) = y with h = sqrt(x^2+y^2)).
+// Also: the radius is the Euclidean norm, longitude in [-pi,pi], latitude in [-pi/2,pi/2].
+extern "C" void h_c19_roundtrip(void)
+{
+  const double x = sym_f64("x"), y = sym_f64("y"), z = sym_f64("z");
+  sym_assume(x * x + y * y + z * z > 1e-200);         // off the centre: radius above 1e-100 (the code switches the latitude to 0 at radii up to DBL_MIN)
+  const Point<3> p(x, y, z, cartesian);
+  const std::array<double,3> s = Utilities::cartesian_to_spherical_coordinates(p);
+  sym_assert(s[0] >= 0 && sym_eq(s[0] * s[0], x * x + y * y + z * z), "the radius is the Euclidean norm");
+  sym_assert(s[1] >= -Consts::PI && s[1] <= Consts::PI && s[2] >= -Consts::PI / 2 && s[2] <= Consts::PI / 2, "longitude lies in [-pi,pi], latitude in [-pi/2,pi/2]");
+  const Point<3> q = Utilities::spherical_to_cartesian_coordinates(s);
+  sym_assert(sym_eq(q[0], x) && sym_eq(q[1], y) && sym_eq(q[2], z), "Cartesian -> spherical -> Cartesian returns the point");
+  sym_reach("end");
+}
